@@ -1,4 +1,4 @@
-(* C06 — value level: RLParameter.mutate on the rational instance. *)
+(* C06 — value level: RLParam(eter).mutate on the rational instance. *)
 From Coq Require Import List Arith Bool ZArith QArith Qround Lia Lqa.
 Import ListNotations.
 From AgileV Require Import C06.Model.
